@@ -175,6 +175,9 @@ def havoc_thermo(env, keys, **kw):
     return tmo.Thermo(pkg(keys).chemicals, mixture=HavocMixture(env), **kw)
 
 
+FLOW_MAX = 1e6
+
+
 def multistream(w, name, th, phases, dist, keys):
     """
     Real MultiStream with planted flows.  dist: {chemical key: string with one character per phase in `phases`,
@@ -188,6 +191,11 @@ def multistream(w, name, th, phases, dist, keys):
         for ph, c in zip(phases, pat):
             present[ph, chem(k).ID] = {'0': 'zero', '+': 'pos', '?': 'maybe'}[c]
     leaves = W.plant_flows(w, s, name, present=present)
+    for v in leaves.values():
+        if v.__class__ is not float:
+            # requires from the quantifier (flows span 1e-3..1e3 kmol/hr; we allow (0, 1e6]): keeps the float replay of a
+            # path model away from IEEE absorption (1.8e16 + 1.0), which is outside A-real
+            w.assume(w.le(v, FLOW_MAX))
     return s, leaves
 
 
